@@ -222,6 +222,30 @@ theorem stored_run_carries_unit_roles (s : AState) (u r cur : String) (x : UnitS
     (⟨cur, x.roles⟩ : Res) ∈ (step s (.runStopped u r)).runs := by
   simp [step, hf, hr]
 
+/-- The recent-engine row written at a run start / run stop carries the unit's roles (those of its last
+UodInfo, by `roles_from_last_uodinfo`) and the run that is active afterwards. -/
+theorem run_event_row_carries_unit_roles (s : AState) (u r cur : String) (x : UnitSt)
+    (hf : findU s.online u = some x) :
+    (⟨u, x.roles, some r⟩ : RecentRow) ∈ (step s (.runStarted u r)).recent ∧
+    (x.run = some cur → (⟨u, x.roles, none⟩ : RecentRow) ∈ (step s (.runStopped u r)).recent) := by
+  have mem_upsert : ∀ (row : RecentRow) (l : List RecentRow), row ∈ upsertRecent row l := by
+    intro row l
+    simp only [upsertRecent]
+    split
+    · rename_i hany
+      simp only [List.any_eq_true, decide_eq_true_eq] at hany
+      obtain ⟨y, hy, hid⟩ := hany
+      exact List.mem_map.mpr ⟨y, hy, by simp [hid]⟩
+    · simp
+  constructor
+  · simp only [step, hf]
+    split
+    · exact mem_upsert _ _
+    · split <;> exact mem_upsert _ _
+  · intro hr
+    simp only [step, hf, hr]
+    exact mem_upsert _ _
+
 /-- The recent-engine row written at a disconnect carries the unit's roles. -/
 theorem disconnect_row_carries_unit_roles (s : AState) (u : String) (x : UnitSt)
     (hf : findU s.online u = some x) :
@@ -256,7 +280,8 @@ theorem history_protection (h : List Event) (u : String) (R user : List String)
 example : specRoles [.connect "u" ["A"], .runStarted "u" "r1", .runStopped "u" "r1", .disconnect "u",
       .connect "u" ["B"], .runStarted "u" "r2"] "u" = some ["B"] ∧
     (runHistory [.connect "u" ["A"], .runStarted "u" "r1", .runStopped "u" "r1", .disconnect "u",
-      .connect "u" ["B"], .runStarted "u" "r2"]).runs = [⟨"r1", ["A"]⟩] := by decide
+      .connect "u" ["B"], .runStarted "u" "r2"]).runs = [⟨"r1", ["A"]⟩] ∧
+    (runHistory [.connect "u" ["A"], .runStarted "u" "r1"]).recent = [⟨"u", ["A"], some "r1"⟩] := by decide
 
 /-! ## The full statement fails on the unchanged code -/
 
